@@ -708,15 +708,31 @@ class Interp:
         return self.eval(sl, fr)
 
     def _concretize(self, idx, lo, hi, what):
-        """fork a symbolic int over the finite range lo..hi (inclusive)"""
+        """fork a symbolic int over its feasible values (all within lo..hi inclusive)"""
         if not isinstance(idx, SymInt):
             return idx
-        if hi - lo > 4096:
-            raise EngineError("concretize over a large range (%s)" % what)
-        for i in range(lo, hi + 1):
-            if branch(idx == i):
-                return i
-        raise sym.PathAbort()
+        if hi - lo <= 64:
+            for i in range(lo, hi + 1):
+                if branch(idx == i):
+                    return i
+            raise sym.PathAbort()
+        # large container: enumerate the feasible values with the solver (the path condition must bound them)
+        import z3
+        p = sym.cur()
+        for _ in range(1024):
+            r = p.check()
+            if r != z3.sat:
+                if r == z3.unsat:
+                    raise sym.PathAbort()
+                raise EngineError("concretize (%s): solver unknown" % what)
+            v = p.solver.model().eval(idx.e, model_completion=True).as_long()
+            if not lo <= v <= hi:
+                if branch(And(idx >= lo, idx <= hi)):
+                    continue
+                raise sym.PathAbort()
+            if branch(idx == v):
+                return v
+        raise EngineError("concretize over more than 1024 values (%s)" % what)
 
     def getitem(self, o, i):
         if isinstance(o, (SeqList, ArrList)):
